@@ -61,6 +61,10 @@ struct Scheduler
         int blocked_on = -1;
         std::function<void()> body;
         uint64_t last_run_step = 0;
+        uint64_t progress = 0; // yield points other than atomic operations passed by this thread
+        // spin detection of the atomics variant (per run, so that a run does not depend on its predecessors)
+        uint64_t a_last_switches = 0, a_last_progress = 0;
+        int a_streak = 0, a_fuse = 48;
         bool holds_interest = false; // has a statement in flight or a lock (for the stall probe)
         int prio = 0;
         int cond_waiting = -1;       // id of the condition variable this thread waits for
@@ -156,7 +160,9 @@ struct Scheduler
         if (!stall_first_writer || stalled_once || !active || me < 0 || me != current)
             return;
         stalled_once = true;
-        t[me].prio = -1000000;
+        // below everybody who blocks; threads that wait by spinning sink below this after a while
+        // (every yield of a spinner lowers its priority), so the stall ends for them too
+        t[me].prio = -static_cast<int>(steps) - 20000;
         f_stall++;
     }
 
@@ -177,9 +183,17 @@ struct Scheduler
         }
     }
 
+    uint64_t kind_count[16] = { 0 };
     [[noreturn]] void die(const char* what)
     {
         std::string m = std::string("\nSIM-") + what + "\n";
+        m += "yield kinds:";
+        for (int k = 0; k < 16; k++)
+            m += " " + std::to_string(kind_count[k]);
+        int nrun = 0, nblk = 0, ndone = 0;
+        for (int i = 0; i < nthreads; i++)
+            (t[i].st == S_RUNNABLE ? nrun : t[i].st == S_BLOCKED ? nblk : ndone)++;
+        m += " runnable=" + std::to_string(nrun) + " blocked=" + std::to_string(nblk) + " done=" + std::to_string(ndone) + " switches=" + std::to_string(switches) + "\n";
         ssize_t r = write(2, m.data(), m.size());
         (void)r;
         _exit(79);
@@ -309,6 +323,9 @@ struct Scheduler
             return;
         NoFault nf; // the scheduler's own allocations are neither fault sites nor yield points
         trace.add((static_cast<uint64_t>(kind) << 8) | static_cast<uint64_t>(me));
+        ++kind_count[kind & 15];
+        if (kind != YK_ATOMIC)
+            ++t[me].progress;
         tick();
         hand_off(me, false);
     }
@@ -667,6 +684,8 @@ struct Scheduler
         pct_points = pct;
         steps = 0;
         switches = 0;
+        for (auto& k : kind_count)
+            k = 0;
         trace = Fnv();
         mtx_addr.clear();
         mtx_owner.clear();
@@ -682,6 +701,10 @@ struct Scheduler
             t[i].st = i < n ? S_RUNNABLE : S_DONE;
             t[i].blocked_on = -1;
             t[i].last_run_step = 0;
+            t[i].progress = 0;
+            t[i].a_last_switches = t[i].a_last_progress = 0;
+            t[i].a_streak = 0;
+            t[i].a_fuse = 48;
             t[i].holds_interest = false;
             t[i].cond_waiting = -1;
             t[i].prio = i < static_cast<int>(prios.size()) ? prios[static_cast<size_t>(i)] : i;
